@@ -1,8 +1,9 @@
 (* C19 — model of the hand-written `PartialEq` / `Hash` (src/miniscript/decode.rs),
    `Ord` (src/miniscript/display.rs) and of the pre-order iterator (src/iter/tree.rs)
    for `Terminal` / `Miniscript` (Miniscript::{eq,cmp,hash} delegate to the node only).
-   The model mirrors the code that exists; the repaired variants (`*_fixed`) mirror
-   notes/fixes/C19-*.diff.  No proofs in this file. *)
+   The model mirrors the code that exists, i.e. /repo as of 32d9f676 ("Terminal equality and ordering compare
+   the arity and k of n-ary fragments"); the model of the code before that commit is kept, for the record,
+   in Proofs/EqOrdHistory.v.  No proofs in this file. *)
 From Coq Require Import String.
 From Verif Require Export Ast.
 
@@ -130,30 +131,23 @@ Definition payload_eqb (a b : payload) : bool :=
   end.
 
 (* One iteration of the loop in `impl PartialEq for Terminal`: false = `return false`.
-   The thirteen guarded arms compare the payload of two nodes of the same variant; every
-   other pair (in particular Thresh/Thresh) only compares discriminants. *)
+   The guarded arms compare the payload of two nodes of the same variant (for Thresh: k and the number of
+   children, `th1.k() != th2.k() || th1.n() != th2.n()`; the children follow in the iteration); every other
+   pair only compares discriminants. *)
 Definition eq_pair (me you : node) : bool :=
   match n_tag me, n_tag you with
   | TPkK, TPkK | TPkH, TPkH | TRawPkH, TRawPkH | TAfter, TAfter | TOlder, TOlder
   | TSha256, TSha256 | THash256, THash256 | TRipemd160, TRipemd160 | THash160, THash160
   | TMulti, TMulti | TSortedMulti, TSortedMulti | TMultiA, TMultiA | TSortedMultiA, TSortedMultiA =>
     payload_eqb (n_pl me) (n_pl you)
+  | TThresh, TThresh => payload_eqb (n_pl me) (n_pl you) && N.eqb (n_arity me) (n_arity you)
   | a, b => tag_eqb a b
   end.
 
 (* `for (me, you) in self.pre_order_iter().zip(other.pre_order_iter())`: Iterator::zip stops at
-   the shorter sequence (`combine` truncates the same way); falling out of the loop is `true`. *)
+   the shorter sequence (`combine` truncates the same way); falling out of the loop is `true`.
+   (With the arity compared per node the two pre-orders run in lock-step: eq_structural.) *)
 Definition eq_iter (a b : ms) : bool := forallb (fun p => eq_pair (fst p) (snd p)) (combine (preorder a) (preorder b)).
-
-(* repaired loop body (notes/fixes/C19-terminal-eq-thresh.diff): one more guarded arm
-   `(Thresh(t1), Thresh(t2)) if t1.k() != t2.k() || t1.n() != t2.n() => return false` *)
-Definition eq_pair_fixed (me you : node) : bool :=
-  match n_tag me, n_tag you with
-  | TThresh, TThresh => payload_eqb (n_pl me) (n_pl you) && N.eqb (n_arity me) (n_arity you)
-  | _, _ => eq_pair me you
-  end.
-Definition eq_fixed (a b : ms) : bool :=
-  forallb (fun p => eq_pair_fixed (fst p) (snd p)) (combine (preorder a) (preorder b)).
 
 (* ------------------------------------------------------------------ Hash *)
 (* the words fed to the Hasher, abstracting only how a key feeds itself *)
@@ -226,7 +220,7 @@ Definition frag_name (m : ms) : fname :=
   end.
 
 (* what a yielded DisplayNode carries: for `Node(ty, &Terminal)` the fragment name and the number
-   of display children (TreeLike::n_children of the DisplayNode; the code as it exists never looks at it) *)
+   of display children (TreeLike::n_children of the DisplayNode, `me_n` / `you_n` in `cmp`) *)
 Inductive dnode :=
 | DNode (f : fname) (nch : N)
 | DThreshK (k : N)
@@ -284,10 +278,11 @@ Section Cmp.
   (* `Ord` of the key type: supplied (a table in the runs, a hypothesis-carrying variable in the theorems) *)
   Variable kcmp : key -> key -> comparison.
 
-  (* the `match (me, you)` inside the zip loop of `impl Ord for Terminal`; None = `unreachable!` *)
+  (* the `match (me, you)` inside the zip loop of `impl Ord for Terminal`; None = `unreachable!`.
+     Two Nodes: fragment name, then number of children (`.then(me_n.cmp(&you_n))`). *)
   Definition dnode_cmp (me you : dnode) : option comparison :=
     match me, you with
-    | DNode f _, DNode g _ => Some (fname_cmp f g)
+    | DNode f n, DNode g n' => Some (match fname_cmp f g with Eq => N.compare n n' | c => c end)
     | DThreshK a, DThreshK b => Some (N.compare a b)
     | DKey a, DKey b => Some (kcmp a b)
     | DRawKeyHash a, DRawKeyHash b => Some (bytes_cmp a b)
@@ -298,19 +293,12 @@ Section Cmp.
     | _, _ => None
     end.
 
-  (* repaired comparison of two Nodes: fragment name, then number of children *)
-  Definition dnode_cmp_fixed (me you : dnode) : option comparison :=
-    match me, you with
-    | DNode f n, DNode g n' => Some (match fname_cmp f g with Eq => N.compare n n' | c => c end)
-    | _, _ => dnode_cmp me you
-    end.
-
   (* the zip loop: first non-Equal pair decides, exhausting the shorter sequence is `Equal` *)
   Fixpoint zip_cmp (c : dnode -> dnode -> option comparison) (a b : list dnode) : outcome comparison :=
     match a, b with
     | x :: r, y :: s =>
       match c x y with
-      | None => Panic 356                       (* display.rs:356 unreachable! *)
+      | None => Panic 356                       (* display.rs unreachable! *)
       | Some Eq => zip_cmp c r s
       | Some o => Ok o
       end
@@ -324,11 +312,6 @@ Section Cmp.
     | c => Ok c
     end.
 
-  Definition cmp_fixed (a b : ms) : outcome comparison :=
-    match fname_cmp (frag_name a) (frag_name b) with
-    | Eq => zip_cmp dnode_cmp_fixed (dnodes a) (dnodes b)
-    | c => Ok c
-    end.
 End Cmp.
 
 (* ------------------------------------------------------------------ specification side *)
@@ -369,7 +352,7 @@ Definition dnode_kind (d : dnode) : N :=
 Section Spec.
   Variable kcmp : key -> key -> comparison.
   Definition dnode_cmp_total (x y : dnode) : comparison :=
-    match dnode_cmp_fixed kcmp x y with
+    match dnode_cmp kcmp x y with
     | Some c => c
     | None => N.compare (dnode_kind x) (dnode_kind y)
     end.
